@@ -10,6 +10,7 @@ import J1939.Model.Ca
 import J1939.Model.Dll22
 import J1939.Model.Listener
 import J1939.DriverDm14
+import J1939.Model.Pre21
 namespace J1939.Driver
 open J1939 J1939.Gen
 
@@ -265,6 +266,15 @@ def step (st : St) (line : String) : St × List String :=
         let (r, nw) := Dll21.tick e.cfg e.st st.now
         ({ e with st := r.st }, resLines r ++ (if r.err.isNone then [s!"wakeup {(nw : Int) - st.now}"] else []))
     | none => (st, ["bad-args"])
+  | ["d21.tickpre", i, k, cid, data] =>
+    match i.toNat?, k.toNat?, cid.toNat?, parseList data with
+    | some i, some k, some cid, some data => withD21 st i fun e =>
+        let r := Pre21.tickPre e.cfg (fun d => e.acc.contains d) e.st st.now k (cid, data)
+        ({ e with st := r.st },
+         r.outsBefore.map showOut21 ++ r.rxOuts.map showOut21 ++ (match r.rxErr with | some x => [s!"rxexc {x.name}"] | none => []) ++
+         r.outsAfter.map showOut21 ++
+         (match r.err with | some x => [s!"exc {x.name}"] | none => [s!"wakeup {(r.wakeup : Int) - st.now}"]))
+    | _, _, _, _ => (st, ["bad-args"])
   | ["d21.dump", i] =>
     match i.toNat? with
     | some i => withD21 st i fun e => (e, [dumpD21 e.st])
